@@ -256,6 +256,29 @@ def check(ctx) -> None:
     ff = repo.func(MUT, "HighOrderMutator._finish_generators")
     ok = any(isinstance(n, ast.For) and "generators" in norm(n.iter) and any(isinstance(x, ast.Call) and norm(x.func) == "next" for x in ast.walk(n)) for n in own_nodes(ff))
     ctx.check("C28.exhaust", ff, ok, "_finish_generators does not advance every generator", what="_finish_generators advances every generator")
+    # nested in-place splices must be undone in reverse order of application (LIFO): the generators are
+    # appended in application order, each later one was started on the tree as mutated by the earlier ones
+    hom = repo.func(MUT, "HighOrderMutator.mutate")
+    appended_in_order = any(isinstance(n, ast.Call) and isinstance(n.func, ast.Attribute) and n.func.attr == "append" and "generator" in norm(n.func.value) for n in own_nodes(hom))
+    prepended = any(isinstance(n, ast.Call) and isinstance(n.func, ast.Attribute) and n.func.attr == "insert" and n.args and norm(n.args[0]) == "0" and "generator" in norm(n.func.value) for n in own_nodes(hom))
+    par = ff.args.args[-1].arg
+    loops = [n for n in own_nodes(ff) if isinstance(n, ast.For) and par in norm(n.iter)]
+    rev = any(norm(l.iter) in (f"reversed({par})", f"{par}[::-1]") for l in loops) or any(
+        isinstance(n, ast.While) and any(isinstance(x, ast.Call) and norm(x.func) == f"{par}.pop" and not x.args for x in ast.walk(n)) for n in own_nodes(ff)
+    )
+    if not (appended_in_order or prepended) or not (loops or rev):
+        ctx.undecide("C28.exhaust", ff, "cannot tell the application order of the generators")
+    else:
+        lifo = (appended_in_order and rev) or (prepended and not rev)
+        ctx.check(
+            "C28.exhaust",
+            loops[0] if loops else ff,
+            lifo,
+            "_finish_generators restores the spliced mutations in application order instead of reverse order: an earlier restore "
+            "re-installs a list element while a later generator still holds a splice inside it, so the shared tree stays mutated",
+            what="higher-order splices are undone last-in first-out",
+            stmt="[lifo]",
+        )
 
 
 def _base_name_of_stmt(n):
